@@ -134,6 +134,9 @@ func (obj *SparseInt64Vector) SET(x *SparseInt64Vector) {
   }
 }
 func (obj *SparseInt64Vector) SLICE(i, j int) *SparseInt64Vector {
+  if i < 0 || j < i || j > obj.n {
+    panic("index out of bounds")
+  }
   r := nilSparseInt64Vector(j-i)
   for it := obj.indexIteratorFrom(i); it.Ok(); it.Next() {
     if it.Get() >= j {
